@@ -296,6 +296,19 @@ def FragCue (pkg : String) (fuel : Nat) (top : Top) : Bool :=
   | .ok S => agree pkg top S
   | _ => false
 
+/-- reporting only: what kind of view node is this -/
+def memberSig (v : CV) : String :=
+  let i := v.info
+  (if i.refPath != "" then "ref" else i.ikind) ++ "/" ++ i.op ++ (if i.hasDefault then "/default" else "") ++
+    (if !i.attrs.isEmpty then "/attr" else "") ++ (if i.concrete then "/concrete" else "")
+
+def firstBadMember (sh : CV → Ty → Bool) : List (String × Bool × Bool × CV) → List Field → String
+  | (_, isDef, _, fv) :: rest, f :: fs =>
+    if isDef then "embedded-definition"
+    else if sh fv f.ty then firstBadMember sh rest fs
+    else "member:" ++ memberSig fv
+  | _, _ => "field-lists-differ"
+
 /-- first reason for being outside (reporting only) -/
 def fragCueWhy (pkg : String) (fuel : Nat) (top : Top) : String :=
   match cueFront pkg fuel top with
@@ -303,7 +316,15 @@ def fragCueWhy (pkg : String) (fuel : Nat) (top : Top) : String :=
     (match top.find? (fun e => !(aliasClass e.2.2 && match Schemas.locateObject S pkg e.2.1 with
         | some o => aliasShape (shape pkg top shapeFuel) e.2.2 o.ty
         | none => false)) with
-     | some e => if aliasClass e.2.2 then "definition-with-a-member-outside-the-classes" else "definition-not-struct-enum-scalar"
+     | some e =>
+       if !aliasClass e.2.2 then "definition:" ++ memberSig e.2.2
+       else if isStructV e.2.2 then
+         (match Schemas.locateObject S pkg e.2.1 with
+          | some o => (match o.ty with
+              | .struct fs _ _ _ => firstBadMember (shape pkg top shapeFuel) e.2.2.fields fs
+              | _ => "definition-type-is-not-a-struct")
+          | none => "definition-without-object")
+       else "definition-shape"
      | none => "-")
   | _ => "front-end-error"
 
